@@ -41,7 +41,7 @@ class State:
         n.objs = dict(s.objs); n.pc = list(s.pc); n.next_obj = s.next_obj; n.exc = s.exc; n.caught = list(s.caught)
         n.draws = list(s.draws); n.observes = list(s.observes); n.model = s.model; n.steps = s.steps
         n.nchoice = s.nchoice; n.notes = list(s.notes); n.decisions = s.decisions; n.clock = s.clock
-        n.tasks = None if s.tasks is None else {k: (set(a), set(b)) for k, (a, b) in s.tasks.items()}
+        n.tasks = None if s.tasks is None else {k: ((set(v[0]), set(v[1])) if isinstance(v, tuple) else v) for k, v in s.tasks.items()}
         n.loopcnt = dict(s.loopcnt); n.fidx = s.fidx; n.facts = dict(s.facts); n.havoc_used = s.havoc_used
         if 'flmemo' in s.__dict__: n.flmemo = dict(s.flmemo)
         if 'rngcache' in s.__dict__: n.rngcache = dict(s.rngcache)
@@ -355,12 +355,19 @@ class Engine:
         if p.obj in s.mod.oid_func: raise EngineError('load from function address')
         o = s.getobj(st, p.obj)
         offs = s.offsets(st, p.off, nb, o)
+        if st.tasks is not None:
+            for k, _ in offs: s.note_read(st, p.obj, k, nb)
         if len(offs) == 1:
             return s.load1(st, o, offs[0][0], nb, t)
         vals = [(s.load1(st, o, k, nb, t), c) for k, c in offs]
-        r = vals[-1][0]
-        for v, c in reversed(vals[:-1]): r = s.ite(c, v, r)
-        return r
+        try:
+            r = vals[-1][0]
+            for v, c in reversed(vals[:-1]): r = s.ite(c, v, r)
+            return r
+        except NeedFork:
+            if s.nofork: raise
+            k = s.concretize(st, p.off)
+            return s.load1(st, o, k, nb, t)
     def load_pite(s, st, p, ty):
         _, c, a, b = p
         return s.ite(c, s.load(st, a, ty), s.load(st, b, ty))
@@ -476,11 +483,16 @@ class Engine:
             s.store1(o, off, v, nb)
             return
         for off, c in offs: s.check_ro(st, o, off, nb, p)
+        try:
+            newvals = [(off, s.ite(c, v, o.cells[off][0])) for off, c in offs]
+        except NeedFork:
+            if s.nofork: raise
+            k = s.concretize(st, p.off)          # values that cannot be merged (pointers, mixed kinds): case split on the offset
+            return s.store_raw(st, Ptr(p.obj, k), v, nb)
         o = s.getobj(st, p.obj, True)
-        for off, c in offs:
+        for off, nv in newvals:
             s.note_write(st, p.obj, off, nb)
-            old = o.cells[off][0]
-            o.cells[off] = (s.ite(c, v, old), nb)
+            o.cells[off] = (nv, nb)
     def store1(s, o, off, v, nb):
         if isinstance(v, Bundle):
             s.clear_range(o, off, nb)
@@ -507,10 +519,12 @@ class Engine:
             # symbolic remainder: dropped (reads will see uninitialised = arbitrary, which over-approximates)
     def note_write(s, st, oid, off, nb):
         if st.tasks is not None and st.tasks.get('cur') is not None:
-            k = st.tasks['cur']; st.tasks[k][1].add((oid, off))
+            k = st.tasks['cur']
+            if oid <= st.tasks['mark']: st.tasks[k][1].add((oid, off, nb))      # objects created inside the task are task-local
     def note_read(s, st, oid, off, nb):
         if st.tasks is not None and st.tasks.get('cur') is not None:
-            k = st.tasks['cur']; st.tasks[k][0].add((oid, off))
+            k = st.tasks['cur']
+            if oid <= st.tasks['mark']: st.tasks[k][0].add((oid, off, nb))
 
     # ================================================================ value helpers
     def ite(s, c, a, b):
@@ -676,6 +690,8 @@ class Engine:
             return s.goto(st, fr, goodlbl)
         if c.taint is True:
             s.check_vc(st, True, 'uninit', 'branch depends on uninitialised memory')
+        if c.taint == 'clock':
+            s.check_vc(st, True, 'nondeterminism', 'branch depends on the clock')
         # region merging
         if s.cfg['merge'] and s.nofork < s.cfg['max_merge_depth']:
             if fr.fn.mergeable is None: s.mod.analyse(fr.fn)
@@ -944,7 +960,7 @@ class Engine:
         st.tasks = s1.tasks if s1.tasks is not None else s2.tasks
         if s1.tasks is not None and s2.tasks is not None:
             for k in s2.tasks:
-                if k == 'cur': continue
+                if not isinstance(s2.tasks[k], tuple): continue
                 if k in st.tasks: st.tasks[k][0].update(s2.tasks[k][0]); st.tasks[k][1].update(s2.tasks[k][1])
                 else: st.tasks[k] = s2.tasks[k]
         for k, v in s2.loopcnt.items():
@@ -1000,6 +1016,14 @@ class Engine:
         f = s.mod.funcs.get(entry)
         if f is None: raise EngineError('no function ' + entry)
         st0 = State()
+        if s.cfg.get('scan_globals'):
+            # hidden state: a writable global defined by the translation units under test would make results depend on run order
+            bad = [n for n, g in s.mod.globals.items() if g.alias is None and not g.const and g.init is not None
+                   and '__verif' not in n and not n.startswith('@_ZSt4c') and not n.startswith('@_ZTV') and not n.startswith('@_ZGV')]
+            if bad:
+                s.vc_count('global-state', 'violated')
+                s.violations.append(dict(kind='global-state', msg='writable global defined in the library: ' + ', '.join(bad[:5]), func='@<module>', block='', stack=[], choices=list(choices), draws=[], notes=[], observes=0))
+            else: s.vc_count('global-state', 'proved')
         fr = Frame(f); fr.blk = f.blocks[f.order[0]]; fr.ip = 0
         st0.frames.append(fr); s.funcs_run.add(entry)
         s.pending.append((st0, True))
